@@ -753,6 +753,10 @@ func (this *LedgerStoreImp) releaseSavingBlockLock() {
 func (this *LedgerStoreImp) submitBlock(block *types.Block, result store.ExecuteResult) error {
 	blockHash := block.Hash()
 	blockHeight := block.Header.Height
+	if currBlockHash := this.GetCurrentBlockHash(); block.Header.Height != 0 && block.Header.PrevBlockHash != currBlockHash {
+		return fmt.Errorf("previous block is not the current block at height:%d, current:%s, got:%s",
+			block.Header.Height, currBlockHash.ToHexString(), block.Header.PrevBlockHash.ToHexString())
+	}
 	blockRoot := this.GetBlockRootWithPreBlockHashes(block.Header.Height, []common.Uint256{block.Header.PrevBlockHash})
 	if block.Header.Height != 0 && blockRoot != block.Header.BlockRoot {
 		return fmt.Errorf("wrong block root at height:%d, expected:%s, got:%s",
